@@ -85,6 +85,8 @@ Schema(c) ==
     ("RA" :> DAlias("na", TStr(Unset, Unset, ""), "")) @@
     ("RB" :> DAlias("na", TRef("RA"), "")) @@
     ("MaybeName" :> DAlias("na", TNull(TRef("Name")), "")) @@
+    \* a LOCAL alias of a foreign alias (Shade, in the shared namespace) of a class of a third namespace (nd.Tint)
+    ("Hue" :> DAlias("na", TRef("Shade"), "")) @@
     ("Tree" :> DStruct("na", "", <<Fld("t", I32)>>, <<Sub("leaf_a", "LeafA")>>, TRUE)) @@
     ("LeafA" :> DStruct("na", "Tree", <<Fld("x", TList(TRef("Name"), Unset, Unset))>>, <<>>, FALSE)) @@
     \* every remaining primitive and nested containers (lists of lists, maps of lists, lists of nullables)
@@ -99,6 +101,8 @@ Schema(c) ==
                                    Fld("cells", TList(TList(TRef("Entry"), Unset, Unset), Unset, Unset)),
                            Fld("label", TRef("Label")), Fld("ra", TNull(TRef("RA"))),
                            Fld("trees", TMap(TRef("Tree"))),          \* a map of structs with enumerated subtypes
+                           Fld("hue", TNull(TRef("Hue"))),
+                           Fld("saplings", TList(TNull(TRef("Tree")), Unset, Unset)),   \* nullable items with enumerated subtypes
                            Fld("rb", TList(TRef("RB"), Unset, Unset))>>, <<>>, FALSE)) @@
     (IF c.ring THEN ("Yb" :> DStruct(NB(c), "", <<Fld("z", TNull(TRef("Zc")))>>, <<>>, FALSE)) @@
                     ("Zc" :> DStruct("nc", "", <<Fld("e", TNull(TRef("Upload")))>>, <<>>, FALSE))
@@ -127,7 +131,9 @@ RoutesOf(c) == <<
     Route("na", "get_thing", 1, TVoid, TRef("Tree"), IF c.dep = "late" THEN "none" ELSE "plain", <<>>, "download"),
     Route("nc", "ping", 1, TVoid, TVoid, "none", <<>>, "rpc"),
     \* a union argument that lives in another namespace than the route
-    Route("nc", "paint", 1, TRef("Color"), TVoid, "none", <<>>, "rpc"),
+    Route("nc", "paint", 1, IF c.ring THEN TVoid ELSE TRef("Color"), TVoid, "none", <<>>, "rpc"),
+    \* a struct argument that lives in another namespace than the route
+    Route("nc", "stash", 1, TRef("Upload"), TVoid, "none", <<>>, "rpc"),
     \* (in the ring model nc must import na only, or nb <-> nc would be a direct mutual import)
     Route("nc", "whoami", 1, TVoid, IF c.ring THEN TVoid ELSE TRef("Entry"), "none", <<>>, "rpc") >>
 Namespaces(c) == {"na", NB(c), "nc", "nd", "aa", "nf"}
